@@ -342,7 +342,22 @@ class Gen:
         if self.f.get("opt") and r.random() < 0.5:
             c = r.random()
             n = self.fresh("k")
-            if c < 0.25:
+            if c < 0.2:
+                # a logical operator with one literal operand whose *result* is used as a value: bound by reference and the other operand changed
+                # afterwards, assigned to, or not a bool at all
+                self.note("logical-with-literal-as-value")
+                lit, op = r.choice([("true", "&&"), ("false", "||")])
+                m = self.fresh("fl")
+                form = r.random()
+                e = "%s %s %s" % ((lit, op, m) if r.random() < 0.7 else (m, op, lit))
+                if form < 0.4:
+                    return "var %s = %s; %s %s = (%s); %s = !%s; print(%s); print(%s)" % (m, r.choice(["true", "false"]), r.choice(["auto &", "var &"]), n, e, m, m, n, m)
+                if form < 0.6:
+                    return "var %s = %s; var %s := (%s); %s = !%s; print(%s)" % (m, r.choice(["true", "false"]), n, e, m, m, n)
+                if form < 0.8:
+                    return "var %s = %s; try { var %s = (%s); print(%s) } catch(e) { print(\"not boolean\") }" % (m, r.choice(["3", "0", '"s"']), n, e, n)
+                return "var %s = %s; try { (%s) = %s; print(\"assigned\") } catch(e) { print(\"no assign\") }; print(%s)" % (m, r.choice(["true", "false"]), e, r.choice(["true", "false"]), m)
+            if c < 0.35:
                 self.note("conversion-bound-by-reference")
                 return "auto &%s = %s(%s); %s; print(%s)" % (n, r.choice(["int", "long"]), self.lit(INT), r.choice(["%s += 1", "++%s", "%s = 9"]) % n, n)
             if c < 0.5 and in_fn:
